@@ -113,7 +113,7 @@ PROPS['C15'] = dict(
 )
 
 # properties whose checks are finished, validated on the unchanged tree and listed in MANIFEST.json
-CLAIMED = ['C01', 'C02', 'C03', 'C04', 'C05', 'C09', 'C10', 'C11', 'C12', 'C13', 'C14', 'C15', 'C18', 'C19', 'C20']
+CLAIMED = ['C01', 'C02', 'C03', 'C04', 'C05', 'C06', 'C07', 'C08', 'C09', 'C10', 'C11', 'C12', 'C13', 'C14', 'C15', 'C17', 'C18', 'C19', 'C20']
 
 NOT_APPLICABLE = {
     'C16': 'pure function of program text (compliance rules): no schedule, clock, I/O fault, crash point or second party for a simulator to own; generating packages and rule violations would be input generation, not simulation (DESIGN.md section 6)',
